@@ -133,3 +133,46 @@ package providers
 //@   modifies clock
 //@   fresh result
 //@   ensures result != nil
+
+// ---- C16: request coalescing ---------------------------------------------------------------------------------
+// The interface the coalescing layer wraps: Group.Do as seen through its contract.
+//@ func (p *SingleFlightProvider) do(endpoint string, key string, fn func() (interface{}, error)) (interface{}, error)
+//@   modifies everything
+//@   ensures [C16] keyed_by_endpoint_and_subject: called(@Do#1) && arg(@Do#1, 0) == old(p.single) && arg(@Do#1, 1) == endpoint + "/" + key && arg(@Do#1, 2) == fn && result.0 == @Do#1.0 && result.1 == @Do#1.2
+//@   let G = old(p.single)
+//@   ensures [C16] executed_at_most_once_here: G.$runs == old(G.$runs) || G.$runs == old(G.$runs) + 1
+
+// Calls that differ in endpoint or subject are never merged: the composite key is injective
+// (endpoints are the method names, which contain no "/").
+//@ lemmafn C16_composite_key_injective(e1 string, k1 string, e2 string, k2 string)
+//@   requires !contains(e1, "/") && !contains(e2, "/")
+//@   requires e1 + "/" + k1 == e2 + "/" + k2
+//@   ensures [C16] same_endpoint_same_subject: e1 == e2 && k1 == k2
+
+// The token being refreshed is the subject.
+//@ func (p *SingleFlightProvider) RefreshSession(s *sessions.SessionState, allowedGroups []string) (bool, error)
+//@   let G = old(p.single)
+//@   let before_runs = old(p.single.$runs)
+//@   ensures [C16] keyed_on_refresh_token: called(@do#1) && arg(@do#1, 1) == "RefreshSession" && arg(@do#1, 2) == old(s.RefreshToken)
+//@   ensures [C16] answer_is_the_executions: result.1 == nil ==> @do#1.1 == nil && typeis(@do#1.0, "bool") && result.0 == unbox(@do#1.0, "bool")
+//@   ensures [C16] error_passed_on: @do#1.1 != nil ==> !result.0 && result.1 == @do#1.1
+//@   ensures [C16] merged_caller_gets_the_session_updates: result.0 ==> G.$runs == before_runs + 1
+
+//@ func (p *SingleFlightProvider) ValidateSessionState(s *sessions.SessionState, allowedGroups []string) bool
+//@   let G = old(p.single)
+//@   let before_runs = old(p.single.$runs)
+//@   ensures [C16] keyed_on_access_token: called(@do#1) && arg(@do#1, 1) == "ValidateSessionState" && arg(@do#1, 2) == old(s.AccessToken)
+//@   ensures [C16] answer_is_the_executions: result ==> @do#1.1 == nil && typeis(@do#1.0, "bool") && unbox(@do#1.0, "bool")
+//@   ensures [C16] merged_caller_gets_the_session_updates: result ==> G.$runs == before_runs + 1
+
+// Subject: the user and the group set asked about (sorted, so the order of the list does not matter).
+//@ func (p *SingleFlightProvider) UserGroups(email string, groups []string, accessToken string) ([]string, error)
+//@   ensures [C16] keyed_on_user_and_groups: called(@do#1) && arg(@do#1, 1) == "UserGroups" && called(@Strings#1) && arg(@Strings#1, 0) == groups && called(@Join#1) && arg(@Join#1, 0) == groups && arg(@Join#1, 1) == "," && arg(@do#1, 2) == email + ":" + @Join#1
+//@   ensures [C16] answer_is_the_executions: result.1 == nil ==> @do#1.1 == nil
+
+// the closures handed to the group: each runs the wrapped provider's method for THIS caller's arguments
+//@ func (p *SingleFlightProvider) RefreshSession$1() (interface{}, error)
+//@   ensures [C16] runs_wrapped_refresh_for_this_session: called(@RefreshSession#1) && arg(@RefreshSession#1, 0) == p.provider && arg(@RefreshSession#1, 1) == s && arg(@RefreshSession#1, 2) == allowedGroups && typeis(result.0, "bool") && unbox(result.0, "bool") == @RefreshSession#1.0 && result.1 == @RefreshSession#1.1
+
+//@ func (p *SingleFlightProvider) ValidateSessionState$1() (interface{}, error)
+//@   ensures [C16] runs_wrapped_validate_for_this_session: called(@ValidateSessionState#1) && arg(@ValidateSessionState#1, 0) == p.provider && arg(@ValidateSessionState#1, 1) == s && arg(@ValidateSessionState#1, 2) == allowedGroups && typeis(result.0, "bool") && unbox(result.0, "bool") == @ValidateSessionState#1 && result.1 == nil
